@@ -44,7 +44,7 @@ def all_or_nothing(steps):
     return out
 
 
-def run(pid, tier, seed, oracle_names, title, feats=None, check_c07=False, extra=None, solver_feats=None):
+def run(pid, tier, seed, oracle_names, title, feats=None, check_c07=False, extra=None, solver_feats=None, mode="unchecked"):
     chk = FW.Check(pid, tier, seed)
     if not chk.builds(model=True, harness=True):
         return chk.finish()
@@ -52,7 +52,7 @@ def run(pid, tier, seed, oracle_names, title, feats=None, check_c07=False, extra
     nh, ns = (150, 25) if tier == "quick" else (4000, 600)
     nops = 30 if tier == "quick" else 60
     size = "small" if tier == "quick" else "medium"
-    cases = E.make_cases(seed * 1009 + int(pid[1:]), nh, size=size, nops=nops, feats=feats)
+    cases = E.make_cases(seed * 1009 + int(pid[1:]), nh, size=size, nops=nops, feats=feats, mode=mode)
     res, st = E.run_cases(cases, "%s_%s" % (pid.lower(), tier), timeout=3000)
     chk.ob("harness and model runner exit normally", st[0] == 0 and st[2] == 0, (st[1] + st[3])[-300:])
     bad = [r for r in res if r["diff"]]
